@@ -100,7 +100,13 @@ func VerifC05Shaped() {
 		return s
 	}
 	var data string
-	switch nd.Choice(4) {
+	switch nd.Choice(7) {
+	case 4: // comment and raw blocks: the body is one text token, whatever it contains
+		data = "{% comment %}" + g(2) + "{% endcomment %}" + g(1)
+	case 5:
+		data = "{% raw %}" + g(2) + "{%- endraw %}" + g(1)
+	case 6:
+		data = g(1) + "{%comment%}{{" + g(1) + "{%endcomment%}{% raw -%}" + g(1) + "{% endraw %}"
 	case 0:
 		data = g(1) + "{{" + g(2) + "}}" + g(1)
 	case 1:
